@@ -1,6 +1,9 @@
 pub mod common;
 pub mod config;
 pub mod swarm;
+#[cfg(greatest_ape_aquatic_verif)]
+#[path = "/verif/shims/udp_shims.rs"]
+pub mod verif_shims;
 pub mod workers;
 
 use std::thread::{available_parallelism, sleep, Builder, JoinHandle};
